@@ -42,9 +42,27 @@ def io_havoc(it, env):
     sess.arbitrary_state(fields=["extra_workers"])
 
 
+def fault_havoc(it, env):
+    io_havoc(it, env)
+    sess = it.ctx.unit_state.vars["sess"]
+    sess.loop_head_faults = getattr(sess, "faults", 0)
+
+
+def fault_ghost(it, env, phase):
+    """C13(a) inside a transfer loop: an iteration in which the backend failed does not complete normally - the failure
+    leaves the loop (and reaches the dispatcher as PathIOError => 451), it is never swallowed and followed by more data
+    and a success reply"""
+    if phase != "step":
+        return
+    sess = it.ctx.unit_state.vars["sess"]
+    wname = WORKERS[it.ctx.unit_state.vars["verb"]][1].split(".")[-1]
+    same = getattr(sess, "faults", 0) == getattr(sess, "loop_head_faults", 0)
+    it.ctx.check(f"{wname}/iteration:a-backend-failure-is-not-swallowed", z3.BoolVal(same), info={"props": ["C13"]})
+
+
 def listing_havoc(it, env):
     """as io_havoc; then remember the loop-head state for the per-iteration listing obligation (C07)"""
-    io_havoc(it, env)
+    fault_havoc(it, env)
     sess = it.ctx.unit_state.vars["sess"]
     st = sess.owned_streams[0] if sess.owned_streams else None
     sess.listing_head = {"ev": len(it.ctx.events), "W0": st.fields["writer"].written if st else None, "stream": st}
@@ -57,6 +75,7 @@ def listing_ghost(it, env, phase):
     over the loop the stream carries one line per listed entry, in listing order, none invented, none repeated."""
     if phase != "step":
         return
+    fault_ghost(it, env, phase)
     from pyvc import strmodel
 
     us = it.ctx.unit_state
@@ -225,6 +244,9 @@ def worker_exit(S, outcome):
             # C05 (reference model): the restart offset applies only to the transfer that immediately follows REST
             ro = sess.conn.slots["restart_offset"].fut.value
             ctx.check(f"{wname}/exit:restart-offset-consumed-by-the-transfer", tt(it.eq_term(ro, 0)), info={"props": ["C05"]})
+        # ---- C13(a): a backend failure inside the task is never followed by a success reply of the same command
+        if faults:
+            ctx.check(f"{wname}/exit:no-success-reply-after-a-backend-failure", z3.BoolVal(not (set(cs) & success)), info={"props": ["C13", "C05"]})
         done = {"retr": "226", "stor": "226", "appe": "226", "list": "226", "mlsd": "200"}[verb]
         ok = cs == [done] or cs == ["425"]
         ctx.check(f"{wname}/exit:exactly-one-completion-reply", z3.BoolVal(ok), info={"props": ["C05", "C13"]})
@@ -289,7 +311,7 @@ def define_worker_units():
         c.cancellable = True
         c.exit_hook = worker_exit
         c.raises = {"BaseException": []}
-        spec = LoopSpec(invariants=[("stream-and-file-still-open", loop_inv_open), ("data-moved-so-far-is-exact", loop_inv_data)], havoc=io_havoc)
+        spec = LoopSpec(invariants=[("stream-and-file-still-open", loop_inv_open), ("data-moved-so-far-is-exact", loop_inv_data)], havoc=fault_havoc, ghost=fault_ghost)
         if verb in ("list", "mlsd"):
             spec = LoopSpec(invariants=[("stream-and-file-still-open", loop_inv_open)], havoc=listing_havoc, ghost=listing_ghost)
             c.props = list(c.props) + ["C07"]
